@@ -7,6 +7,7 @@ package main
 // Gallina term for coq/Check_Validator.v.
 
 import (
+	"io"
 	"bytes"
 	"crypto/ed25519"
 	"crypto/sha256"
@@ -474,6 +475,7 @@ type CtxSpec struct {
 
 type World struct {
 	DIDWith      bool // the capability's resource is read with schema.DIDString() (as real services do) instead of withReader
+	Rearchive    string // "archive" | "format": every token goes through Archive/Extract (Format/Parse) right after it is issued
 	NilDerives   bool // NewCapability(..., nil): no derivation rule given (model: dd_desc; Derives log not compared)
 	StructReader bool // caveats are read with core/schema.Struct (renamed fields) instead of the hand-written reader
 	ID           int
@@ -592,14 +594,61 @@ func (w *World) Build() error {
 				signerID = 0
 			}
 		}
+		if w.Rearchive != "" {
+			// every token is stored and loaded again before anybody uses it (as a proof inline, from the resolver, as the
+			// invocation): what comes back carries the token with its whole embedded proof DAG
+			if d2 := rearchived(d, w.Rearchive); d2 != nil {
+				d = d2
+			}
+		}
 		w.built[sp.Name] = &Built{Spec: sp, Dlg: d, Signer: signerID}
 		w.order = append(w.order, sp.Name)
 	}
 	return nil
 }
 
+func rearchived(d delegation.Delegation, how string) delegation.Delegation {
+	var out delegation.Delegation
+	if p := recovered(func() {
+		switch how {
+		case "format":
+			s, err := delegation.Format(d)
+			if err != nil {
+				return
+			}
+			if d2, err := delegation.Parse(s); err == nil {
+				out = d2
+			}
+		default:
+			b, err := io.ReadAll(d.Archive())
+			if err != nil {
+				return
+			}
+			if d2, err := delegation.Extract(b); err == nil {
+				out = d2
+			}
+		}
+	}); p != nil {
+		return nil
+	}
+	if out == nil || out.Link().String() != d.Link().String() {
+		return nil
+	}
+	return out
+}
+
 // accessorMismatch: what a freshly issued token's accessors report against what was asked of Delegate.
-func accessorMismatch(d delegation.Delegation, sp *TokSpec, sg ucan.Signer, nprf int) string {
+func accessorMismatch(issued delegation.Delegation, sp *TokSpec, sg ucan.Signer, nprf int) string {
+	// look at a SECOND view over the same blocks: the issued object itself stays untouched until the code under test
+	// uses it (lazily filled fields of a shared object must still be cold when concurrent users arrive)
+	br, err := blockstore.NewBlockReader(blockstore.WithBlocksIterator(issued.Blocks()))
+	if err != nil {
+		return ""
+	}
+	d, err := delegation.NewDelegationView(issued.Link(), br)
+	if err != nil {
+		return ""
+	}
 	if len(d.Signature().Bytes()) == 0 && len(d.Capabilities()) == 0 {
 		// the root block does not decode as a UCAN (e.g. caveats that are not a map or null): such a delegation has no fields
 		// at all (core/delegation Data()); what the validator makes of it is the world's business
@@ -1010,8 +1059,14 @@ func (w *World) authorityVerifier(obs *Obs) principal.Verifier {
 }
 
 func (w *World) vctx(obs *Obs) validator.ValidationContext[Cav] {
+	var canIssue validator.CanIssueFunc[any] = w.canIssue
+	if w.Ctx.SelfIssued && len(w.Ctx.Owners) == 0 && w.ID%2 == 0 {
+		// the policy is plain self-issue: every other such world hands the validator the library's own IsSelfIssued
+		// (the default of every server) instead of the harness's mirror of it
+		canIssue = validator.IsSelfIssued[any]
+	}
 	return validator.NewValidationContext[Cav](
-		w.authorityVerifier(obs), w.descriptor(obs), w.canIssue, w.checker(obs),
+		w.authorityVerifier(obs), w.descriptor(obs), canIssue, w.checker(obs),
 		w.resolver(), w.parser(obs), w.keyResolver())
 }
 
